@@ -21,4 +21,7 @@ GenCoreInit == {Empty,
                 [l \in {"i2.name", "i2.val", "pl.a"} |-> IF l = "i2.name" THEN "key" ELSE "s:a"]}
 GenChoiceLeaf == {"c.x", "c.y", "c.be", "c.z", "pl.a", "pl.ab"}
 GenChoiceInit == {Empty, [l \in {"c.z", "pl.s"} |-> "s:b"]}
+\* lifecycle family: small data universe, all Set outcomes, both timeout classes
+GenLifeLeaf == {"pl.a", "pl.ab", "i1.name", "i1.val"}
+GenLifeInit == {Empty, [l \in {"pl.s"} |-> "s:b"]}
 =============================================================================
